@@ -179,7 +179,7 @@ func c30Crash(c *core.Ctx, work string, idx int) {
 		c.Count("seq.crash_numbers_checked", 1)
 		c.Count("seq.numbers_checked", 1)
 		if p, dup := seen[n]; dup {
-			c.Violation("C30|crash|duplicate", fmt.Sprintf("number %d was handed out in epoch %d (%s) and again in epoch %d (%s) with a crash in between", n, p.epoch, p.who, o.epoch, o.who), info)
+			c.Violation("C30|crash|duplicate", fmt.Sprintf("number %d was handed out in epoch %d (%s) and again in epoch %d (%s); epochs are separated by a SIGKILL and a clean session", n, p.epoch, p.who, o.epoch, o.who), info)
 			return
 		}
 		seen[n] = o
